@@ -1321,7 +1321,7 @@ impl<const N: u32> PxE1<{ N }> {
                 }
             } else {
                 let bit_n_plus_one = ((exp_frac32_a >> (reg_a + 33 - N)) & 0x1) != 0;
-                let bits_more = exp_frac32_a & (0x_7FFF_FFFF >> (N - reg_a - 2));
+                let bits_more = (exp_frac32_a & (0x_7FFF_FFFF >> (N - reg_a - 2))) != 0;
 
                 if reg_a < 30 {
                     exp_frac32_a >>= 2 + reg_a;
@@ -1333,7 +1333,7 @@ impl<const N: u32> PxE1<{ N }> {
                 if u_z == 0 {
                     u_z = 0x1 << (32 - N);
                 } else if bit_n_plus_one {
-                    u_z += (((u_z >> (32 - N)) & 1) | bits_more) << (32 - N);
+                    u_z += (((u_z >> (32 - N)) & 1) | (bits_more as u32)) << (32 - N);
                 }
                 u_z
             }
